@@ -242,6 +242,7 @@ type rOpState struct {
 	doneAt    int
 	err       error
 	regAtDone int // streams of the collection registered when the call returned
+	handlers  int // hand-overs of the partition observed while the call ran (hook H16): the size of the barrier
 	regAtLoop int // 1 + streams of the collection registered when the call began to hand the partition to the handlers (0 = not yet)
 }
 
@@ -410,6 +411,9 @@ func (r *RigR) run() {
 						}
 						o.regAtLoop = n + 1
 					}
+					if o.op.Kind == "addpart" && o.op.Part == part && o.issued && !o.done {
+						o.handlers++ // one hand-over per handler found = the size of the partition's barrier
+					}
 				}
 				r.opMu.Unlock()
 			}
@@ -458,6 +462,7 @@ func (r *RigR) run() {
 	}
 	r.mgr = mgr
 	r.ctx, r.cancel = context.WithCancel(context.Background())
+	reader.VerifEventQueueCap = func() int { return sc.Knobs.EventCap }
 	mgr.SetCtx(r.ctx)
 
 	idleClock := 0
